@@ -91,9 +91,36 @@ func rewrite(fset *token.FileSet, f *ast.File, rel string, st *stats) bool {
 		}
 		return true
 	})
+	// enclosing function of every go statement (sites are named file:line:enclosingFunc/callee, so that policies can
+	// be written against names instead of line numbers)
+	goOwner := map[*ast.GoStmt]string{}
+	for _, d := range f.Decls {
+		if fd, ok := d.(*ast.FuncDecl); ok && fd.Body != nil {
+			ast.Inspect(fd.Body, func(n ast.Node) bool {
+				if g, ok := n.(*ast.GoStmt); ok {
+					goOwner[g] = fd.Name.Name
+				}
+				return true
+			})
+		}
+	}
+	calleeName := func(e ast.Expr) string {
+		switch x := e.(type) {
+		case *ast.Ident:
+			return x.Name
+		case *ast.SelectorExpr:
+			if id, ok := x.X.(*ast.Ident); ok {
+				return id.Name + "." + x.Sel.Name
+			}
+			return "." + x.Sel.Name
+		case *ast.FuncLit:
+			return "func"
+		}
+		return "?"
+	}
 	replaceGo := func(g *ast.GoStmt) ast.Stmt {
 		pos := fset.Position(g.Pos())
-		site := fmt.Sprintf("%s:%d", rel, pos.Line)
+		site := fmt.Sprintf("%s:%d:%s/%s", rel, pos.Line, goOwner[g], calleeName(g.Call.Fun))
 		uses = true
 		st.goStmts++
 		// arguments of the go call are evaluated at the go statement in real Go;
@@ -329,6 +356,17 @@ func runtimeOverlay(out string, ov map[string]string) {
 	a = replaceN(a, "hashkey[i] = uintptr(bootstrapRand())", "hashkey[i] = uintptr(0x243f6a8885a308d3 + uint64(i)*0x9e3779b97f4a7c15)", 1, "alg.go hashkey")
 	a = replaceN(a, "key[i] = bootstrapRand()", "key[i] = 0x13198a2e03707344 + uint64(i)*0x9e3779b97f4a7c15", 1, "alg.go aes key")
 	write("alg.go", a)
+	// crypto/internal/randutil.MaybeReadByte consumes, with probability 1/2, one extra byte of the caller's random
+	// stream (since Go 1.20 also in ecdsa.GenerateKey): the repository derives flip keys with
+	// ecdsa.GenerateKey(S256(), bytes.NewReader(signature)), which is reproducible on the Go releases the project
+	// builds with (< 1.20) and a coin flip on this toolchain. Pinned to "no extra byte".
+	ru := filepath.Join(goroot, "src", "crypto", "internal", "randutil", "randutil.go")
+	if b, err := os.ReadFile(ru); err == nil && strings.Contains(string(b), "func MaybeReadByte(r io.Reader) {") {
+		src := "package randutil\n\nimport \"io\"\n\n// MaybeReadByte: pinned by /verif/simgen to never read (see simgen/main.go).\nfunc MaybeReadByte(r io.Reader) {}\n"
+		pth := filepath.Join(dst, "randutil.go.txt")
+		must(os.WriteFile(pth, []byte(src), 0644))
+		ov[ru] = pth
+	}
 }
 
 func main() {
